@@ -202,7 +202,7 @@ RdSubs(b, q, pe, bend, acc, cl) ==
 
 RdPayload(b, d, pe, bend, tc) ==
    LET P == pe - d  s == FixSize(tc) IN
-   IF NonFlat(tc) THEN Res("E", d, "non-flattenable-type-on-the-wire", NoVal)
+   IF NonFlat(tc) /\ "accept_nonflat" \notin Wrong THEN Res("E", d, "non-flattenable-type-on-the-wire", NoVal)
    ELSE IF s > 0 THEN
         IF P = 0 THEN Res("E", d, "zero-items", NoVal)
         ELSE IF P % s # 0 THEN Res("E", d, "data-length-not-a-multiple-of-the-item-size", NoVal)
@@ -241,7 +241,7 @@ RdFields(b, p, lim, bend, k, acc, cl) ==
 
 RdMsg(b, p, lim, bend) ==
    IF ~Fits(12, p, lim, bend) THEN Fail(12, p, lim, bend, "header-incomplete")
-   ELSE IF V(b, p) # PM00 THEN Res("R", p, "protocol-version", NoVal)
+   ELSE IF V(b, p) # PM00 /\ "no_version_check" \notin Wrong THEN Res("R", p, "protocol-version", NoVal)
    ELSE LET r == RdFields(b, p+12, lim, bend, V(b, p+8), <<>>, "") IN
         IF r.v # "A" THEN r ELSE [Res("A", r.p, "", [what |-> Bytes(b, p+4, 4), fields |-> r.val]) EXCEPT !.cl = r.cl]
 
@@ -284,7 +284,7 @@ RdTTop(t, b) == LET r == RdT(t, b, 0, Len(b), Len(b)) IN
 RdFrame(b) ==
    IF Len(b) < 8 THEN Res("I", 0, "frame-header-incomplete", NoVal)
    ELSE LET L == V(b, 0)  e == V(b, 4) IN
-   IF e < ENC0 \/ e > ENC0 + 9 THEN Res("R", 4, "encoding-id", NoVal)
+   IF e < ENC0 \/ e > ENC0 + (IF "enc_range_off_by_one" \in Wrong THEN 10 ELSE 9) THEN Res("R", 4, "encoding-id", NoVal)
    ELSE IF b[4] = 255 /\ b[3] = 255 /\ b[2] = 255 /\ b[1] >= 248 THEN Res("R", 0, "header-plus-body-overflows-32-bits", NoVal)
    ELSE IF L > Len(b) - 8 THEN Res("I", 0, "frame-body-incomplete", NoVal)
    ELSE IF e # ENC0 THEN Res("E", 4, "body-is-not-a-zlib-stream", NoVal)
@@ -482,7 +482,7 @@ Trunc == /\ mu.k = "base"
 Word ==  /\ mu.k = "base"
          /\ LET map == BaseOf(mu.enc, mu.base).map IN
             \E j \in 1..Len(map) : \E w \in Vals(map[j]) :
-               mu' = Mk(mu.enc, mu.base, "word", map[j].off, map[j], w, "-", Put(mu.b, map[j].off, w), mu.b)
+               mu' = Mk(mu.enc, mu.base, "word", map[j].off, map[j], w, "-", Put(mu.b, IF "put_off_by_one" \in Wrong /\ map[j].off > 0 THEN map[j].off - 1 ELSE map[j].off, w), mu.b)
          /\ Emit(mu')
 Splice == /\ mu.k = "base"
           /\ LET map == BaseOf(mu.enc, mu.base).map IN
